@@ -123,6 +123,7 @@ class Scope:
         self.cls = cls
         self.func = func
         self.inline_depth = inline_depth
+        self.root_cls = cls              # class of the object `self` denotes (kept through inlined module-level helpers)
 
 
 class Lower:
@@ -173,6 +174,16 @@ class Lower:
                     return self._glob(self.scope.program.qualify(m, d))
                 if head in ('dict', 'list', 'str', 'int', 'set', 'tuple'):
                     return G(d)
+        # super().<property>  ->  the base class's property function applied to self
+        if isinstance(n.value, ast.Call) and isinstance(n.value.func, ast.Name) and n.value.func.id == 'super' \
+                and self.scope.cls is not None and self._super_args_ok(n.value):
+            defining = self.scope.func.cls if self.scope.func is not None and self.scope.func.cls is not None else self.scope.cls
+            if n.value.args:
+                defining = self.scope.program.classes[self.scope.program.qualify(self.scope.module, dotted(n.value.args[0]))]
+            target = self.scope.program.lookup_method(self.scope.cls, n.attr, after=defining) \
+                if defining in self.scope.program.mro(self.scope.cls) else None
+            if target is not None and target.is_property:
+                return self.bind(G(target.qualname), target, [self.env.get('self', V('self'))], [], skip=0)
         obj = self.e(n.value)
         return self.attr_read(obj, n.attr)
 
@@ -180,9 +191,10 @@ class Lower:
         key = (obj, name)
         if key in self.store:
             return self.store[key]
-        if obj == V('self') and self.scope.cls is not None and name in INLINE_SELF_PROPS \
+        self_cls = self.scope.cls if self.scope.cls is not None else self.scope.root_cls
+        if obj == V('self') and self_cls is not None and name in INLINE_SELF_PROPS \
                 and self.scope.inline_depth < 4:
-            fi = self.scope.program.lookup_method(self.scope.cls, name)
+            fi = self.scope.program.lookup_method(self_cls, name)
             if fi is not None and fi.is_property:
                 body = [s for s in fi.node.body if not _is_doc(s)]
                 if len(body) == 1 and isinstance(body[0], ast.Return):
@@ -314,6 +326,8 @@ class Lower:
             return None
         sub = FuncLower(prog, target)
         sub.scope.inline_depth = self.scope.inline_depth + 1
+        if target.cls is None:
+            sub.scope.root_cls = self.scope.cls if self.scope.cls is not None else self.scope.root_cls
         lw = Lower(sub.scope, sub.locals, dict(bind), {})
         body = [s for s in target.node.body if not _is_doc(s)]
         return sub.block(body, lw, ())
@@ -528,6 +542,22 @@ def _has_default(fi, name):
 
 
 _NCC = {}
+
+
+_NON_NONE_BUILTINS = ('list', 'tuple', 'sorted', 'len', 'dict', 'set', 'frozenset', 'str', 'int', 'sum', 'bool', 'float', 'abs')
+
+
+def _never_none(x):
+    k = x[0]
+    if k in ('list', 'tuple', 'dict', 'set', 'map', 'filter', 'concat', 'lam', 'cmp', 'zip', 'flat', 'sigma'):
+        return True
+    if k == 'const':
+        return x[1] is not None
+    if k == 'call' and x[1][0] == 'glob' and x[1][1] in _NON_NONE_BUILTINS:
+        return True
+    if k == 'if':
+        return _never_none(x[2]) and _never_none(x[3])
+    return False
 
 
 def _const_display(x):
@@ -1300,6 +1330,12 @@ def norm(t):
         for x, y in ((a, b), (b, a)):
             if t[1] == 'Eq' and x == NONE and y[0] == 'call' and y[1][0] == 'attr' and y[1][2] == 'prepare' and not y[2] and not y[3]:
                 return ('seq', (y,), C(True))
+        # identity with None of something that is never None (a display, a mapped / filtered / concatenated sequence, a
+        # lambda, a comparison, the result of list / tuple / sorted / len / dict / set / str / int / sum)
+        if t[1] in ('Is', 'IsNot') and NONE in (a, b):
+            other = b if a == NONE else a
+            if _never_none(other):
+                return C(t[1] == 'IsNot')
         if a[0] == 'const' and b[0] == 'const':
             try:
                 singletons = (a[1] is None or isinstance(a[1], bool)) or (b[1] is None or isinstance(b[1], bool))
